@@ -6,7 +6,7 @@ class C11(FloorProp):
     profile = 'c11'
     crash_every = 5
     design_ref = 'DESIGN.md section 4 / C11'
-    budgets = {'quick': 8000, 'thorough': 300000}
+    budgets = {'quick': 40000, 'thorough': 800000}
 
 
 PROP = C11()
